@@ -582,17 +582,20 @@ func (w *World) Step(e Event) (RespObs, *Req, Resp) {
 		w.Now += e.D
 		return envResp(), nil, Resp{}
 	case "AdminLock":
-		if err := w.In.LockMod.Lock(bg, PidPool[e.Pid]); err != nil {
+		if err := w.In.LockMod.Lock(bg, PidPool[e.Pid]); err != nil && err != authboss.ErrUserNotFound {
 			panic(err)
 		}
 		return envResp(), nil, Resp{}
 	case "AdminUnlock":
-		if err := w.In.LockMod.Unlock(bg, PidPool[e.Pid]); err != nil {
+		if err := w.In.LockMod.Unlock(bg, PidPool[e.Pid]); err != nil && err != authboss.ErrUserNotFound {
 			panic(err)
 		}
 		return envResp(), nil, Resp{}
 	case "RestartConfirm":
 		u, err := w.In.Store.Load(bg, PidPool[e.Pid])
+		if err == authboss.ErrUserNotFound {
+			return envResp(), nil, Resp{}
+		}
 		if err != nil {
 			panic(err)
 		}
@@ -605,6 +608,9 @@ func (w *World) Step(e Event) (RespObs, *Req, Resp) {
 		return w.classify(e, Resp{Mails: r.Mails, WroteHead: true, Status: 0}), nil, r
 	case "UpdatePassword":
 		u, err := w.In.Store.Load(bg, PidPool[e.Pid])
+		if err == authboss.ErrUserNotFound {
+			return envResp(), nil, Resp{}
+		}
 		if err != nil {
 			panic(err)
 		}
